@@ -31,9 +31,9 @@ from cryptography.hazmat.primitives.asymmetric.utils import (
 
 from paramiko.common import four_byte
 from paramiko.message import Message
-from paramiko.pkey import PKey
+from paramiko.pkey import PKey, _exact_strings, _signature_fields
 from paramiko.ssh_exception import SSHException
-from paramiko.util import deflate_long
+from paramiko.util import deflate_long, inflate_long
 
 
 class _ECDSACurve:
@@ -228,14 +228,17 @@ class ECDSAKey(PKey):
         return m
 
     def verify_ssh_sig(self, data, msg):
-        try:
-            if msg.get_text() != self.ecdsa_curve.key_format_identifier:
-                return False
-        except SSHException:
-            # algorithm name is not valid UTF-8
+        fields = _signature_fields(msg)
+        if (
+            fields is None
+            or fields[0] != self.ecdsa_curve.key_format_identifier
+        ):
+            # truncated / over-long blob, bad UTF-8, or another algorithm
             return False
-        sig = msg.get_binary()
-        sigR, sigS = self._sigdecode(sig)
+        decoded = self._sigdecode(fields[1])
+        if decoded is None:
+            return False
+        sigR, sigS = decoded
         try:
             signature = encode_dss_signature(sigR, sigS)
         except ValueError:
@@ -343,7 +346,8 @@ class ECDSAKey(PKey):
         return msg.asbytes()
 
     def _sigdecode(self, sig):
-        msg = Message(sig)
-        r = msg.get_mpint()
-        s = msg.get_mpint()
-        return r, s
+        # exactly two mpints, nothing missing and nothing left over
+        fields = _exact_strings(sig, 2)
+        if fields is None:
+            return None
+        return inflate_long(fields[0]), inflate_long(fields[1])
